@@ -27,6 +27,7 @@ type verifC33Bucket struct {
 	verifBucket
 	content  map[string][]byte
 	failGet  string
+	failBody string // Get of this object succeeds but reading its body breaks
 	failIter bool
 	reads    int
 }
@@ -41,8 +42,15 @@ func (b *verifC33Bucket) Get(_ context.Context, name string) (io.ReadCloser, err
 	if b.find(name) == nil {
 		return nil, errVerifNotFound
 	}
+	if name == b.failBody {
+		return io.NopCloser(verifC33BrokenBody{}), nil
+	}
 	return io.NopCloser(bytes.NewReader(b.content[name])), nil
 }
+type verifC33BrokenBody struct{}
+
+func (verifC33BrokenBody) Read([]byte) (int, error) { return 0, errVerifC33Transient }
+
 func (b *verifC33Bucket) Iter(ctx context.Context, dir string, f func(string) error, options ...objstore.IterOption) error {
 	if b.failIter {
 		return errVerifC33Transient
@@ -97,13 +105,15 @@ func VerifC33Compact() {
 	victim := ids[verifIntRange("failingBlock", 0, n-1)].String()
 	failKind := verifParam("FAILKIND", 0)
 	if failKind == 0 {
-		failKind = verifIntRange("failure", 1, 3)
+		failKind = verifIntRange("failure", 1, 4)
 	}
 	switch failKind {
 	case 1:
 		bkt.failGet = victim + "/meta.json"
 	case 2:
 		bkt.failGet = victim + "/deletion-mark.json"
+	case 4:
+		bkt.failBody = victim + "/meta.json"
 	default:
 		bkt.failIter = true
 	}
@@ -132,6 +142,9 @@ func VerifC33Compact() {
 	hit := bkt.failIter
 	if failKind == 1 {
 		hit = bkt.find(bkt.failGet) != nil
+	}
+	if failKind == 4 {
+		hit = bkt.find(bkt.failBody) != nil
 	}
 	if failKind == 2 {
 		hit = bkt.find(victim+"/meta.json") != nil
